@@ -588,6 +588,31 @@ func flowsFrom(v ssa.Value, src func(ssa.Value) bool) bool {
 						if s, ok := r.(*ssa.Store); ok && s.Addr == a && rec(s.Val) {
 							return true
 						}
+						// whole-struct load: any field store contributes
+						if fa, ok := r.(*ssa.FieldAddr); ok {
+							for _, rr := range refs(fa) {
+								if s, ok := rr.(*ssa.Store); ok && s.Addr == ssa.Value(fa) && rec(s.Val) {
+									return true
+								}
+							}
+						}
+					}
+				}
+				if fa, ok := x.X.(*ssa.FieldAddr); ok {
+					if a, ok := fa.X.(*ssa.Alloc); ok {
+						// field of a local struct: follow the stores into the same field
+						for _, r := range refs(a) {
+							if fa2, ok := r.(*ssa.FieldAddr); ok && fa2.Field == fa.Field {
+								for _, rr := range refs(fa2) {
+									if s, ok := rr.(*ssa.Store); ok && s.Addr == ssa.Value(fa2) && rec(s.Val) {
+										return true
+									}
+								}
+							}
+							if s, ok := r.(*ssa.Store); ok && s.Addr == ssa.Value(a) && rec(s.Val) {
+								return true
+							}
+						}
 					}
 				}
 				return rec(x.X)
